@@ -325,6 +325,7 @@ def output_family():
         outputs('outA', [('stdout', 0), ('both', 0), ('file', 0)]),
         outputs('outB', [('file', 0), ('direct', 0), ('stdout', 0)]),
         outputs('outC', [('stdout', 0), ('stdout', 3), ('nothing', 0)]),
+        outputs('outL', [('file', 0), ('filedel', 0), ('filedel+stdout', 0)], user_t=False),
         outputs('outD', [('direct', 0), ('file', 7), ('file', 0)]),
         outputs('outE', [('nothing', 0), ('stdout', -9), ('stdout', 0)]),
         outputs('outF', [('file', 0), ('direct', 4), ('nothing', 3)]),
@@ -617,6 +618,16 @@ def cycle_family():
         cycle('cyc_long', ['t1', 't2', 't3', 't4', 't5'], 't4', [['t1']]),
     ]
     fam[-1]['bounds'] = (1, 1)
+    # a cycle m <-> n whose members were the first files the database saw (small ids), entered later through a new acyclic
+    # prefix whose id has two digits and contains the digit of m's id (the inherited cycle set is a list of ids: an id must
+    # be compared as a whole, not as a substring).  A filler target with four sources pushes the id of top0 to 12.
+    srcs = ['s%d' % i for i in range(1, 5)]        # ids: m=2 m.do=3 n=4 n.do=5 fill=6 fill.do=7 s1..s4=8..11 top0=12
+    rules = {'m.do': [{'m': [ifchange('n'), out('stdout', 'n')]}], 'n.do': [{'n': [ifchange('m'), out('stdout', 'm')]}],
+             'top0.do': [{'top0': [ifchange('m'), out('stdout', 'm')]}],
+             'fill.do': [{'fill': [ifchange(*srcs), out('stdout', 's1')]}]}
+    fam.append({'name': 'cyc_ids', 'plain': ['m', 'n', 'top0', 'fill'] + srcs, 'rules': rules, 'init': srcs + list(rules),
+                'cmds': [('redo', ['m'], False, 1), ('redo', ['fill'], False, 1), ('redo', ['top0'], False, 1)],
+                'user': [], 'rm': [], 'doedits': [], 'bounds': (3, 3), 'skip_invariants': ['CycleReported']})
     return [complete(p) for p in fam]
 
 
